@@ -7,8 +7,9 @@
 2. TLC checks the cross-thread model TaskRemote (one action per atomic access announced by a hook)
    for: future polled / dropped on the home thread only, result taken exactly once across threads,
    the Shared block never freed under a remote scheduler, a completion reaches a parked joiner,
-   no leaked joiner waker. Four genuine defects of the pinned code are named deviations (D10a, D10b,
-   D11, D12); control runs show the invariants catch them and that the proposed repairs remove them.
+   no leaked joiner waker. Four genuine defects of the pinned code (D10a, D10b, D11, D12) were found
+   with this model, reproduced by the replay and repaired in /repo; the normal configurations model
+   the repaired code, control configurations switch one repair off and must violate again.
 3. Gen_Task programs are replayed on the real Executor (and through compio-runtime) with instrumented
    futures; Gen_TaskRemote interleavings are replayed with the schedule controller on real threads.
 """
@@ -31,7 +32,8 @@ NOTE = ("Bounds: <= 3 tasks, <= 7 commands, max_interval 1-2 (single-threaded); 
         "wakers, sync queue 1-2, <= 2 ticks (cross-thread). Sequentially consistent interleavings at hook granularity "
         "(weak-memory reorderings are not decided). A use of freed memory is established from the order of hook events and "
         "the offending thread is never released, so it does not physically happen. Trusted: the add-only hooks sit "
-        "immediately before the access they announce. Four genuine defects are recorded as known findings.")
+        "immediately before the access they announce. Four genuine defects found by this check were repaired in /repo "
+        "(fix: commits 34e0cbc, e47288e, e3e06d8, f63d8e1) and are kept as control configurations of the model.")
 TECHNIQUE = "TLA+ models (TLC exhaustive + liveness) + program replay + schedule-controlled interleaving replay"
 DESIGN_REF = "3/C04"
 
@@ -44,34 +46,29 @@ QUICK_MODELS = [
     ("Task", "MC_Task_live.cfg", "hold"),
     ("Task", "MC_Task_ctl_drop_result_in_taskdrop.cfg", {"WordOk", "NoErr", "ExactlyOnce"}),
     ("Task", "MC_Task_ctl_take_one_less.cfg", {"NoStarvation"}),
+    # TaskRemote: the normal configurations model the code as it is now (Fix = all four repairs, Strict)
     ("TaskRemote", "MC_TaskRemote_join.cfg", "hold"),
     ("TaskRemote", "MC_TaskRemote_w1.cfg", "hold"),
     ("TaskRemote", "MC_TaskRemote_w2.cfg", "hold"),
-    ("TaskRemote", "MC_TaskRemote_live_fixed.cfg", "hold"),
+    ("TaskRemote", "MC_TaskRemote_live.cfg", "hold"),
     ("TaskRemote", "MC_TaskRemote_live_w1.cfg", "hold"),
-    # controls: without the excuse of the named deviations the invariants must fail ...
-    ("TaskRemote", "MC_TaskRemote_join_strict.cfg", {"NoLostJoinWake", "NoWakerLeak", "NoErr"}),
-    ("TaskRemote", "MC_TaskRemote_w1_strict.cfg", {"NoErr"}),
-    ("TaskRemote", "MC_TaskRemote_w2_fix10b.cfg", {"NoErr"}),
-    ("TaskRemote", "MC_TaskRemote_join_fix11.cfg", {"NoWakerLeak"}),
-    ("TaskRemote", "MC_TaskRemote_live_d11.cfg", {"JoinCompletes", "temporal"}),
-    # ... and with the proposed repairs switched on they must hold without any excuse
-    ("TaskRemote", "MC_TaskRemote_join_fixed.cfg", "hold"),
-    ("TaskRemote", "MC_TaskRemote_w1_fix10b.cfg", "hold"),
-    ("TaskRemote", "MC_TaskRemote_w2_fixed.cfg", "hold"),
+    # controls: with one repair switched off (= the code before that fix) the invariant must fail again
+    ("TaskRemote", "MC_TaskRemote_old_d11.cfg", {"NoLostJoinWake"}),
+    ("TaskRemote", "MC_TaskRemote_old_d12.cfg", {"NoWakerLeak"}),
+    ("TaskRemote", "MC_TaskRemote_old_d10b.cfg", {"NoErr"}),
+    ("TaskRemote", "MC_TaskRemote_old_d10a.cfg", {"NoErr"}),
+    ("TaskRemote", "MC_TaskRemote_old_d11_live.cfg", {"JoinCompletes", "temporal"}),
 ]
 THOROUGH_MODELS = QUICK_MODELS + [
     ("Task", "MC_Task_mi1_thorough.cfg", "hold"),
     ("Task", "MC_Task_mi2_thorough.cfg", "hold"),
     ("Task", "MC_Task_three_thorough.cfg", "hold"),
     ("Task", "MC_Task_live_thorough.cfg", "hold"),
-    ("TaskRemote", "MC_TaskRemote_wake.cfg", "hold"),
     ("TaskRemote", "MC_TaskRemote_join_thorough.cfg", "hold"),
-    ("TaskRemote", "MC_TaskRemote_join_fixed_thorough.cfg", "hold"),
     ("TaskRemote", "MC_TaskRemote_w2_thorough.cfg", "hold"),
-    ("TaskRemote", "MC_TaskRemote_w2_fixed_thorough.cfg", "hold"),
+    ("TaskRemote", "MC_TaskRemote_wake_thorough.cfg", "hold"),
     ("TaskRemote", "MC_TaskRemote_full_thorough.cfg", "hold"),
-    ("TaskRemote", "MC_TaskRemote_live_wait.cfg", "hold"),
+    ("TaskRemote", "MC_TaskRemote_live_wait_thorough.cfg", "hold"),
 ]
 GEN_TASK_EXH = ["Gen_Task.cfg", "Gen_Task_mi2.cfg"]
 GEN_TASK_SIM = ["Gen_Task_sim1.cfg", "Gen_Task_sim2.cfg"]
@@ -85,7 +82,8 @@ POINTS = ["exec.drain.load", "exec.drain.popped", "exec.drain.sub", "exec.state.
           "exec.state.finish_scheduling", "exec.remote.load_shared", "exec.remote.reserve", "exec.remote.push",
           "exec.remote.push_retry", "exec.remote.unreserve", "exec.remote.wake_driver", "exec.state.set_has_result",
           "exec.state.start_setting_waker", "exec.state.finish_setting_waker", "exec.remote.write_waker",
-          "exec.state.set_cancelled"]
+          "exec.state.set_cancelled", "exec.remote.enter", "exec.remote.leave", "exec.remote.drop_stale_waker",
+          "exec.task.wait_scheduling", "exec.task.wait_spin"]
 
 
 def _model(job):
@@ -205,6 +203,86 @@ def generate(module, cfg, path, *, simulate=None, depth=None, timeout=3000):
     return n
 
 
+TARGET_BASES = {
+    # constants of the two base configurations used for targeted schedules
+    "join": dict(Setup="fresh", NW=0, SyncCap=1, MaxTicks=2, MaxJPolls=2, JCmds='{"poll", "hdrop", "cancel", "detach"}'),
+    "fullq": dict(Setup="hot", NW=2, SyncCap=1, MaxTicks=1, MaxJPolls=1, JCmds="{}"),
+}
+
+
+def targeted_schedule(site, tmp):
+    """Shortest schedule (from TLC's counterexample to NeverAt) that parks a thread at `site`; None if unreachable."""
+    for base, c in TARGET_BASES.items():
+        cfg = os.path.join(tmp, "target_%s_%s.cfg" % (base, site.replace(".", "_")))
+        with open(cfg, "w") as f:
+            f.write("CONSTANTS\n  Setup = \"%s\"\n  NW = %d\n  SyncCap = %d\n  MaxTicks = %d\n  MaxJPolls = %d\n"
+                    "  MaxWakes = 1\n  JCmds = %s\n  HCmds = {\"tick\", \"clear\", \"execdrop\"}\n  Spurious = TRUE\n"
+                    "  Strict = TRUE\n  Fix = {\"D10a\", \"D10b\", \"D11\", \"D12\"}\n  Site = \"%s\"\n"
+                    "SPECIFICATION Spec\nINVARIANTS NeverAt\n" %
+                    (c["Setup"], c["NW"], c["SyncCap"], c["MaxTicks"], c["MaxJPolls"], c["JCmds"], site))
+        dump = os.path.join(tmp, "trace_%s.json" % site.replace(".", "_"))
+        if os.path.exists(dump):
+            os.unlink(dump)
+        r = vlib.tlc("Gen_TaskRemote_target", cfg, coverage=False, workers=2, timeout=900,
+                     extra=["-dumpTrace", "json", dump])
+        if r.error:
+            raise vlib.ToolError("targeted schedule for %s: %s\n%s" % (site, r.error, r.out[-1500:]))
+        if r.violated == "NeverAt" and os.path.exists(dump):
+            return trace_to_schedule(json.load(open(dump)), c)
+    return None
+
+
+def trace_to_schedule(trace, c):
+    """TLC json counterexample -> the schedule format printed by Gen_TaskRemote."""
+    steps = []
+    last = None
+    for pre, act, post in trace["counterexample"]["action"]:
+        a, b, name = pre[1], post[1], act["name"]
+        last = b
+        if name.startswith("H"):
+            th = "H"
+        elif name.startswith("J"):
+            th = "J"
+        else:
+            ch = [t for t in a["pc"] if a["pc"][t] != b["pc"][t] or a["loc"][t] != b["loc"][t]]
+            if len(ch) != 1:
+                raise vlib.ToolError("cannot attribute action %s to a thread (%s)" % (name, ch))
+            th = ch[0]
+        pcs = {t: a["pc"].get(t, "-") for t in ("H", "J", "W1", "W2")}
+        if "Cmd" in name:
+            arg = ""
+            if name == "HCmdTick":
+                cmd = "tick"
+            elif name == "HCmdClear":
+                cmd = "clear" if b["loc"]["H"]["ctx"] == "clear" else "execdrop"
+            elif name == "WCmdWake":
+                cmd = "wake"
+            elif name == "WCmdDrop":
+                cmd = "wdrop"
+            elif name == "JCmdPoll":
+                cmd, arg = "poll", str(b["loc"]["J"]["jw"])
+            elif name == "JCmdCancel":
+                cmd = "hdrop" if b["loc"]["J"]["dropres"] else "cancel"
+            elif name == "JCmdDetach":
+                cmd = "detach"
+            else:
+                raise vlib.ToolError("unknown command action " + name)
+            steps.append({"th": th, "k": "cmd", "a": cmd, "arg": arg, "next": b["pc"][th], "pcs": pcs})
+        else:
+            arg = ""
+            if name == "HUnschedule":
+                arg = "ready" if b["pc"]["H"] == "exec.state.finish_running" else "pend"
+            steps.append({"th": th, "k": "step", "a": a["pc"][th], "arg": arg, "next": b["pc"][th], "pcs": pcs})
+    g = last["g"]
+    parked = ("COMPLETED" in last["bits"] and last["pc"]["H"] != "exec.task.wake_joiner" and last["pc"]["J"] == "idle"
+              and last["hd"] == "held" and g["jres"] == "pending" and not g["woken"])
+    fin = {"polls": g["polls"], "fdrops": g["fdrops"], "rdrops": g["rdrops"], "rtaken": g["rtaken"],
+           "deallocs": g["deallocs"], "jwoken": g["jwoken"], "jres": g["jres"], "produced": g["produced"],
+           "err": g["err"], "known": g["known"], "dev": g["dev"], "freed": last["shared"] == "freed",
+           "parked": parked, "leak": last["alloc"] == "freed" and last["wslot"] != 0}
+    return {"setup": c["Setup"], "nw": c["NW"], "cap": c["SyncCap"], "steps": steps, "fin": fin, "targeted": True}
+
+
 def pair_coverage(paths):
     """(thread, released-from, arrives-at, other thread, other thread's site) pairs in the schedules."""
     pairs = set()
@@ -223,7 +301,7 @@ def pair_coverage(paths):
 
 
 def run(run, tier, replay):
-    for m in ("Task", "Gen_Task", "TaskRemote", "Gen_TaskRemote"):
+    for m in ("Task", "Gen_Task", "TaskRemote", "Gen_TaskRemote", "Gen_TaskRemote_target"):
         vlib.sany(m)
     tmp = vlib.scratch()
     try:
@@ -246,9 +324,10 @@ def run(run, tier, replay):
         quick = tier == "quick"
         # 1. model checking (invariants, liveness, controls, repairs)
         run_models(run, QUICK_MODELS if quick else THOROUGH_MODELS)
-        run.note("named_deviations", ["D10a SCHEDULING is one bit", "D10b no wait_for_scheduling on the tick path",
-                                      "D11 completion inside SETTING_WAKER is never announced",
-                                      "D12 waker left to the joiner is never dropped"])
+        run.note("repaired_deviations_kept_as_controls",
+                 ["D10a SCHEDULING is one bit (f63d8e1)", "D10b no wait_for_scheduling on the tick path (e3e06d8)",
+                  "D11 completion inside SETTING_WAKER is never announced (34e0cbc)",
+                  "D12 waker left to the joiner is never dropped (e47288e)"])
         # 2. build the harness while nothing else competes for the cores
         vlib.cargo_build("hexec", ["replay_task", "replay_remote"])
         total_drift = 0
@@ -325,10 +404,30 @@ def run(run, tier, replay):
             quarantined += s["threads_quarantined"]
             for k, v in s["sites_released"].items():
                 sites[k] = sites.get(k, 0) + v
-        run.note("remote_schedules_replayed", nrem)
         run.note("remote_actions_released", released)
         run.note("remote_threads_quarantined_before_use_of_freed_memory", quarantined)
+        # every scheduling point must be bound in every run: for the points the seeded sample did not exercise
+        # TLC produces a shortest schedule that reaches them (edge cover completed deterministically)
         missing = [p for p in POINTS if sites.get(p, 0) == 0]
+        targeted = []
+        if missing and not run.violations:
+            tpath = os.path.join(tmp, "targeted.jsonl")
+            with open(tpath, "w") as f:
+                for site in missing:
+                    sch = targeted_schedule(site, tmp)
+                    if sch is None:
+                        raise vlib.ToolError("hook point %s is unreachable in the model (vacuous scheduling point)" % site)
+                    f.write(json.dumps(sch) + "\n")
+                    targeted.append(site)
+            s, d = replay_bin(run, "replay_remote", [tpath], "remote targeted")
+            total_drift += classify(run, s, d, "remote targeted")
+            run.add_traces(s["cases"])
+            nrem += s["cases"]
+            for k, v in s["sites_released"].items():
+                sites[k] = sites.get(k, 0) + v
+            missing = [p for p in POINTS if sites.get(p, 0) == 0]
+        run.note("remote_points_reached_by_targeted_schedules", targeted)
+        run.note("remote_schedules_replayed", nrem)
         if missing and not run.violations:
             raise vlib.ToolError("binding lost: hook points never exercised by the replayed schedules: %s" % missing)
         with open(rfiles[1][1]) as f:
